@@ -317,11 +317,13 @@ fn gen_pt(src: &mut Src) -> (i32, i32) {
     (gen_coord(src), gen_coord(src))
 }
 fn gen_i16(src: &mut Src) -> i16 {
-    match src.weighted(&[6, 2, 1, 1]) {
+    match src.weighted(&[6, 2, 1, 1, 2]) {
         0 => src.below(64) as i16,
         1 => src.signed(32767) as i16,
         2 => i16::MIN,
-        _ => i16::MAX,
+        3 => i16::MAX,
+        // ends of the ranges the specification names (attribute 1..127, layer 0..255, four-digit years)
+        _ => *src.pick(&[1i16, 63, 64, 126, 127, 128, 255, 256, 1899, 1900, 1901, 1970, 2026, 9999, -1, -127, -128]),
     }
 }
 fn gen_i32(src: &mut Src) -> i32 {
